@@ -10,7 +10,6 @@ import (
 	"net/http/httptest"
 	"net/url"
 	"regexp"
-	"sort"
 	"strings"
 	"time"
 
@@ -99,32 +98,47 @@ func finishPost(r *http.Request, form url.Values) {
 	r.Form = form
 }
 
-func (w *World) tok(kind string, id int) string {
-	var l []string
-	switch kind {
-	case "code":
-		l = w.Codes
-	case "at":
-		l = w.ATs
-	case "rt":
-		l = w.RTs
-	case "dev":
-		l = w.Devs
-	case "par":
-		l = w.Pars
+const unknownToken = "ory_xx_b3JwaGFuLXRva2VuLW5ldmVyLW1pbnRlZC1ieS10aGlzLXNlcnZlcg.c2lnbmF0dXJlLW9mLW5vdGhpbmctYXQtYWxsLTAxMjM0NTY3ODk"
+
+func rowKey(kind, tok string) string {
+	if kind == "par" {
+		return tok
 	}
-	if id >= 1 && id <= len(l) {
-		return l[id-1]
-	}
-	// an id the harness never received: a well-formed credential minted under a foreign secret
-	return "ory_xx_b3JwaGFuLXRva2VuLW5ldmVyLW1pbnRlZC1ieS10aGlzLXNlcnZlcg.c2lnbmF0dXJlLW9mLW5vdGhpbmctYXQtYWxsLTAxMjM0NTY3ODk"
+	return sigOf(tok)
 }
 
+// deliver registers a credential the harness was handed and returns its abstract id: the
+// position of its row in the store's creation order (-1 if the store never saw such a row).
+func (w *World) deliver(kind, tok string) int {
+	key := rowKey(kind, tok)
+	w.Tok[kind][key] = tok
+	if id := w.Rec.IDOf(kind, key); id > 0 {
+		return id
+	}
+	return -1
+}
+
+// tok returns the credential string for an abstract id; ids of rows whose credential was
+// never delivered (or that do not exist) yield a well-formed credential this server never minted.
+func (w *World) tok(kind string, id int) string {
+	if key := w.Rec.KeyOf(kind, id); key != "" {
+		if t, ok := w.Tok[kind][key]; ok {
+			return t
+		}
+	}
+	return unknownToken
+}
+
+func (w *World) count(kind string) int { return len(w.Rec.Keys(kind)) }
+
 func verifierFor(id int, variant string) string {
-	base := fmt.Sprintf("verifier-%03d-abcdefghijklmnopqrstuvwxyz-0123456789", id) // 50 chars
+	return verifierVariant(fmt.Sprintf("verifier-%03d-abcdefghijklmnopqrstuvwxyz-0123456789", id), variant) // 50 chars
+}
+
+func verifierVariant(base, variant string) string {
 	switch variant {
 	case "wrong":
-		return fmt.Sprintf("WRONGONE-%03d-abcdefghijklmnopqrstuvwxyz-0123456789", id)
+		return "WRONGONE" + base[8:]
 	case "short":
 		return base[:42]
 	case "long":
@@ -206,18 +220,28 @@ func (w *World) authorizeQuery(op Op) url.Values {
 func (w *World) doAuthorize(p int, op Op) Obs {
 	o := newObs()
 	q := w.authorizeQuery(op)
-	nextCode := len(w.Codes) + 1
+	w.mu.Lock()
+	w.authzCalls++
+	ver := verifierFor(w.authzCalls, "") // one verifier per authorization request
+	w.mu.Unlock()
 	switch op.Pkce {
 	case "S256":
-		q.Set("code_challenge", s256(verifierFor(nextCode, "")))
+		q.Set("code_challenge", s256(ver))
 		q.Set("code_challenge_method", "S256")
 	case "plain":
-		q.Set("code_challenge", verifierFor(nextCode, ""))
+		q.Set("code_challenge", ver)
 		q.Set("code_challenge_method", "plain")
 	case "plain_nm":
-		q.Set("code_challenge", verifierFor(nextCode, ""))
+		q.Set("code_challenge", ver)
 	}
-	return w.finishAuthorize(p, op, q, o)
+	o = w.finishAuthorize(p, op, q, o)
+	if id := o.New["code"]; id > 0 {
+		w.mu.Lock()
+		w.Verifier[id] = ver
+		w.PkceOf[id] = op.Pkce
+		w.mu.Unlock()
+	}
+	return o
 }
 
 func (w *World) finishAuthorize(p int, op Op, q url.Values, o Obs) Obs {
@@ -249,17 +273,12 @@ func (w *World) finishAuthorize(p int, op Op, q url.Values, o Obs) Obs {
 	w.Provider.WriteAuthorizeResponse(ctx, rec, ar, resp)
 	o.Status = rec.Code
 	if c := resp.GetCode(); c != "" {
-		w.Codes = append(w.Codes, c)
-		w.codeOwner[len(w.Codes)] = op.Client
-		o.New["code"] = len(w.Codes)
-		if op.Op == "authorize" && op.Pkce != "" && op.Pkce != "none" {
-			w.Verifier[len(w.Codes)] = verifierFor(len(w.Codes), "")
-			w.PkceOf[len(w.Codes)] = op.Pkce
-		}
+		id := w.deliver("code", c)
+		w.codeOwner[id] = op.Client
+		o.New["code"] = id
 	}
 	if t := resp.GetParameters().Get("access_token"); t != "" {
-		w.ATs = append(w.ATs, t)
-		o.New["at"] = len(w.ATs)
+		o.New["at"] = w.deliver("at", t)
 		o.ExpIn = expInTicks(resp.GetParameters().Get("expires_in"))
 	}
 	if t := resp.GetParameters().Get("id_token"); t != "" {
@@ -314,12 +333,10 @@ func (w *World) tokenCall(p int, r *http.Request, grantAllRequested bool) (Obs, 
 	var body map[string]interface{}
 	_ = json.Unmarshal(rec.Body.Bytes(), &body)
 	if t, _ := body["access_token"].(string); t != "" {
-		w.ATs = append(w.ATs, t)
-		o.New["at"] = len(w.ATs)
+		o.New["at"] = w.deliver("at", t)
 	}
 	if t, _ := body["refresh_token"].(string); t != "" {
-		w.RTs = append(w.RTs, t)
-		o.New["rt"] = len(w.RTs)
+		o.New["rt"] = w.deliver("rt", t)
 	}
 	if t, _ := body["id_token"].(string); t != "" {
 		w.IDTs = append(w.IDTs, t)
@@ -336,10 +353,7 @@ func (w *World) doRedeem(p int, op Op) Obs {
 	f := url.Values{}
 	f.Set("grant_type", "authorization_code")
 	f.Set("code", w.tok("code", op.Code))
-	owner := ""
-	if op.Code >= 1 && op.Code <= len(w.Codes) {
-		owner = w.codeOwner[op.Code]
-	}
+	owner := w.codeOwner[op.Code]
 	switch op.Redir {
 	case "same":
 		f.Set("redirect_uri", RedirectOf[owner])
@@ -351,16 +365,16 @@ func (w *World) doRedeem(p int, op Op) Obs {
 	switch op.Ver {
 	case "none", "":
 	case "right":
-		f.Set("code_verifier", verifierFor(op.Code, ""))
+		f.Set("code_verifier", w.verifierOf(op.Code))
 	case "other":
 		// the string that would be right under the *other* method
 		if w.PkceOf[op.Code] == "S256" {
-			f.Set("code_verifier", s256(verifierFor(op.Code, "")))
+			f.Set("code_verifier", s256(w.verifierOf(op.Code)))
 		} else {
-			f.Set("code_verifier", s256(verifierFor(op.Code, ""))+"AAAA")
+			f.Set("code_verifier", s256(w.verifierOf(op.Code))+"AAAA")
 		}
 	default:
-		f.Set("code_verifier", verifierFor(op.Code, op.Ver))
+		f.Set("code_verifier", verifierVariant(w.verifierOf(op.Code), op.Ver))
 	}
 	if len(op.XScope) > 0 {
 		f.Set("scope", strings.Join(op.XScope, " "))
@@ -552,7 +566,11 @@ func (w *World) Probe() (ats []TokState, rts []TokState) {
 	w.Rec.Hook = nil
 	defer func() { w.Rec.Keep = keep; w.Rec.Hook = hook }()
 	ats, rts = []TokState{}, []TokState{}
-	for i, t := range w.ATs {
+	for i, key := range w.Rec.Keys("at") {
+		t, ok := w.Tok["at"][key]
+		if !ok {
+			continue // created but never delivered: nobody can present it
+		}
 		tu, ar, err := w.Provider.IntrospectToken(ctx, t, fosite.AccessToken, NewSess(""))
 		if err != nil {
 			continue
@@ -565,7 +583,11 @@ func (w *World) Probe() (ats []TokState, rts []TokState) {
 		ats = append(ats, st)
 	}
 	if !w.Cfg.NoRTIntro {
-		for i, t := range w.RTs {
+		for i, key := range w.Rec.Keys("rt") {
+			t, ok := w.Tok["rt"][key]
+			if !ok {
+				continue
+			}
 			tu, ar, err := w.Provider.IntrospectToken(ctx, t, fosite.RefreshToken, NewSess(""))
 			if err != nil {
 				continue
@@ -615,8 +637,7 @@ func (w *World) Project() Proj {
 	m := w.Mem
 	ctx := context.Background()
 	pr := Proj{CodeActive: []int{}, CodeInactive: []int{}, AT: []int{}, RTActive: []int{}, RTInactive: []int{}, Pkce: []int{}, Oidc: []int{}, Dev: []int{}, Par: []int{}}
-	for i, c := range w.Codes {
-		sig := sigOf(c)
+	for i, sig := range w.Rec.Keys("code") {
 		_, err := m.GetAuthorizeCodeSession(ctx, sig, nil)
 		if err == nil {
 			pr.CodeActive = append(pr.CodeActive, i+1)
@@ -627,36 +648,42 @@ func (w *World) Project() Proj {
 			pr.Pkce = append(pr.Pkce, i+1)
 		}
 		_, ok1 := m.IDSessions[sig]
-		_, ok2 := m.IDSessions[c]
-		if ok1 || ok2 {
+		_, ok2 := m.IDSessions[w.Tok["code"][sig]]
+		if ok1 || (ok2 && w.Tok["code"][sig] != "") {
 			pr.Oidc = append(pr.Oidc, i+1)
+		} else {
+			for k := range m.IDSessions { // sessions keyed by the complete code (see DESIGN.md F7)
+				if strings.HasSuffix(k, "."+sig) {
+					pr.Oidc = append(pr.Oidc, i+1)
+					break
+				}
+			}
 		}
 	}
-	for i, t := range w.ATs {
-		if _, ok := m.AccessTokens[sigOf(t)]; ok {
+	for i, sig := range w.Rec.Keys("at") {
+		if _, ok := m.AccessTokens[sig]; ok {
 			pr.AT = append(pr.AT, i+1)
 		}
 	}
-	for i, t := range w.RTs {
-		_, err := m.GetRefreshTokenSession(ctx, sigOf(t), nil)
+	for i, sig := range w.Rec.Keys("rt") {
+		_, err := m.GetRefreshTokenSession(ctx, sig, nil)
 		if err == nil {
 			pr.RTActive = append(pr.RTActive, i+1)
 		} else if err == fosite.ErrInactiveToken {
 			pr.RTInactive = append(pr.RTInactive, i+1)
 		}
 	}
-	for i, d := range w.Devs {
-		if _, ok := m.DeviceAuths[sigOf(d)]; ok {
+	for i, sig := range w.Rec.Keys("dev") {
+		if _, ok := m.DeviceAuths[sig]; ok {
 			pr.Dev = append(pr.Dev, i+1)
 		}
 	}
-	for i, u := range w.Pars {
+	for i, u := range w.Rec.Keys("par") {
 		if _, ok := m.PARSessions[u]; ok {
 			pr.Par = append(pr.Par, i+1)
 		}
 	}
 	pr.NAT, pr.NRT, pr.NCode, pr.NPkce, pr.NOidc, pr.NPar, pr.NDev = len(m.AccessTokens), len(m.RefreshTokens), len(m.AuthorizeCodes), len(m.PKCES), len(m.IDSessions), len(m.PARSessions), len(m.DeviceAuths)
-	sort.Ints(pr.CodeActive)
 	return pr
 }
 
@@ -699,9 +726,8 @@ func (w *World) doDevStart(p int, op Op) Obs {
 	}
 	w.Provider.WriteDeviceResponse(ctx, rec, dr, resp)
 	o.Status = rec.Code
-	w.Devs = append(w.Devs, resp.GetDeviceCode())
-	w.UCs = append(w.UCs, resp.GetUserCode())
-	o.New["dev"] = len(w.Devs)
+	o.New["dev"] = w.deliver("dev", resp.GetDeviceCode())
+	w.UCs[sigOf(resp.GetDeviceCode())] = resp.GetUserCode()
 	d := time.Duration(resp.GetExpiresIn()) * time.Second
 	if d%Tick == 0 {
 		o.ExpIn = int(d / Tick)
@@ -716,19 +742,20 @@ func (w *World) doDevStart(p int, op Op) Obs {
 func (w *World) doDevDecide(p int, op Op) Obs {
 	o := newObs()
 	ctx := w.ctx(p)
-	if op.Dev < 1 || op.Dev > len(w.UCs) {
+	dsig := w.Rec.KeyOf("dev", op.Dev)
+	uc, ok := w.UCs[dsig]
+	if !ok {
 		o.Res = "not_found"
 		return o
 	}
 	strat := w.DevStrategy()
-	usig, _ := strat.UserCodeSignature(ctx, w.UCs[op.Dev-1])
-	dsig := sigOf(w.Devs[op.Dev-1])
+	usig, _ := strat.UserCodeSignature(ctx, uc)
 	req, ok := w.Mem.DeviceAuths[usig]
 	if !ok {
 		o.Res = "not_found"
 		return o
 	}
-	if err := strat.ValidateUserCode(ctx, req, w.UCs[op.Dev-1]); err != nil {
+	if err := strat.ValidateUserCode(ctx, req, uc); err != nil {
 		o.Res = errName(err)
 		return o
 	}
@@ -784,9 +811,7 @@ func (w *World) doPush(p int, op Op) Obs {
 	}
 	w.Provider.WritePushedAuthorizeResponse(ctx, rec, ar, resp)
 	o.Status = rec.Code
-	w.Pars = append(w.Pars, resp.GetRequestURI())
-	w.parOwner = append(w.parOwner, op.Client)
-	o.New["par"] = len(w.Pars)
+	o.New["par"] = w.deliver("par", resp.GetRequestURI())
 	d := time.Duration(resp.GetExpiresIn()) * time.Second
 	if d%Tick == 0 {
 		o.ExpIn = int(d / Tick)
@@ -860,13 +885,12 @@ func (w *World) doUsePar(p int, op Op) Obs {
 	w.Provider.WriteAuthorizeResponse(ctx, rec, ar, resp)
 	o.Status = rec.Code
 	if c := resp.GetCode(); c != "" {
-		w.Codes = append(w.Codes, c)
-		w.codeOwner[len(w.Codes)] = ar.GetClient().GetID()
-		o.New["code"] = len(w.Codes)
+		id := w.deliver("code", c)
+		w.codeOwner[id] = ar.GetClient().GetID()
+		o.New["code"] = id
 	}
 	if t := resp.GetParameters().Get("access_token"); t != "" {
-		w.ATs = append(w.ATs, t)
-		o.New["at"] = len(w.ATs)
+		o.New["at"] = w.deliver("at", t)
 		o.ExpIn = expInTicks(resp.GetParameters().Get("expires_in"))
 	}
 	if t := resp.GetParameters().Get("id_token"); t != "" {
@@ -874,4 +898,13 @@ func (w *World) doUsePar(p int, op Op) Obs {
 		o.IDT = true
 	}
 	return o
+}
+
+func (w *World) verifierOf(code int) string {
+	w.mu.Lock()
+	defer w.mu.Unlock()
+	if v, ok := w.Verifier[code]; ok {
+		return v
+	}
+	return verifierFor(900+code, "") // the code was obtained without PKCE: any well-formed verifier
 }
